@@ -13,13 +13,13 @@ use super::{ClientProxy, FileDiagnostic};
 use crate::context::ServerContextSnapshot;
 use crate::context::lsp_features::LspFeatures;
 use crate::handlers::{ClientConfig, init_analysis, register_files_watch};
+#[cfg(feature = "verif")]
+use crate::verif_locks::{Mutex as AsyncMutex, RwLock};
 use emmylua_code_analysis::{
     EmmyLuaAnalysis, Emmyrc, WorkspaceFileMatcher, WorkspaceFolder, load_configs,
     read_file_with_encoding, uri_to_file_path,
 };
 use lsp_types::Uri;
-#[cfg(feature = "verif")]
-use crate::verif_locks::{Mutex as AsyncMutex, RwLock};
 #[cfg(not(feature = "verif"))]
 use tokio::sync::{Mutex as AsyncMutex, RwLock};
 use tokio_util::sync::CancellationToken;
